@@ -16,6 +16,9 @@ EstA(toff, extra) == LET T == DocTransformL(Ref, GE, 2)
 EstB(toff) == [DocTransformL(Ref, Pose(14, <<0, 3, 1>>), 1) EXCEPT !.stamps = [k \in 1..4 |-> 10 + Ref.stamps[k] - toff]]
 WalkEst(toff) == Shift(DocTransformL(Walk, GE, 1), -toff)      \* a rigid image of Walk: the motion filter keeps the same poses
 EstC(toff) == [DocTransformL(Ref, Pose(21, <<-3, 0, 5>>), 1) EXCEPT !.stamps = [k \in 1..4 |-> 5 + Ref.stamps[k] - toff]]      \* stamps between those of A and B
+\* a reference covering the time ranges of all three estimates (A: 0..4, C: 5..9, B: 10..14): several trajectories are associated with /
+\* origin-aligned to the SAME full reference, one after the other
+RefWide == MergeSeq(<<Ref, Shift(DocTransformL(Ref, Pose(6, <<1, 1, 8>>), 1), 5), Shift(DocTransformL(Ref, Pose(20, <<-6, 2, 0>>), 1), 10)>>)
 Modes == {"none", "sync", "rigid", "sim", "scale", "origin", "scaleorigin"}
 Idx(sq, x) == CHOOSE k \in DOMAIN sq : sq[k] = x
 \* a reference that starts earlier than every estimate: its first pose has no counterpart
@@ -23,12 +26,12 @@ RefLead == [poses |-> <<Pose(2, <<-4, 0, 0>>)>> \o Ref.poses, stamps |-> <<-10>>
 Case(nt, useref, down, mf, merge, toff, mode, tf, s, inv, prop, plane, fmt, export) ==
   [trajs |-> IF mf >= 10000 THEN <<WalkEst(toff)>> ELSE IF nt = 1 THEN <<EstA(toff, fmt # "kitti")>> ELSE IF nt = 2 THEN <<EstA(toff, fmt # "kitti"), EstB(toff)>>
              ELSE <<EstA(toff, fmt # "kitti"), EstB(toff), EstC(toff)>>,
-   ref |-> IF mf >= 10000 THEN Walk ELSE IF useref /\ fmt # "kitti" /\ (nt + down + toff) % 2 = 1 THEN RefLead ELSE Ref, useref |-> useref, fmt |-> fmt, export |-> export,
+   ref |-> IF mf >= 10000 THEN Walk ELSE IF nt >= 2 /\ ~merge /\ mode \in {"sync", "origin"} /\ fmt # "kitti" THEN RefWide ELSE IF useref /\ fmt # "kitti" /\ (nt + down + toff) % 2 = 1 THEN RefLead ELSE Ref, useref |-> useref, fmt |-> fmt, export |-> export,
    q |-> [down |-> down, mf |-> mf, merge |-> merge, toff |-> toff, mode |-> mode, md |-> 0, tf |-> tf, g |-> GT, s |-> s,
           inv |-> inv, prop |-> prop, plane |-> plane]]
 Admissible(x) ==
   /\ (x.q.merge => Len(x.trajs) >= 2 /\ x.fmt # "kitti")
-  /\ (x.q.mode # "none" => x.useref /\ (Len(x.trajs) = 1 \/ x.q.merge))
+  /\ (x.q.mode # "none" => x.useref /\ (Len(x.trajs) = 1 \/ x.q.merge \/ (x.q.mode \in {"sync", "origin"} /\ x.fmt # "kitti")))
   /\ (x.q.mode \in {"rigid", "sim", "scale", "scaleorigin"} => x.q.down = 0 /\ x.q.mf = 0)        \* keep the point sets non-degenerate
   /\ (x.q.mf >= 10000 => Len(x.trajs) = 1 /\ x.q.down = 0)
   /\ (x.q.mode = "rigid" => FALSE)                                                                \* the inputs differ by a scale of 2
